@@ -26,7 +26,8 @@ Pair(k, v) == <<k, v>>
 KeyExprs == {S, NCall(NVar("string"), <<S>>), NConcat(S, T)}
 ValExprs == {ID, NCall(NVar("count"), <<NVar("")>>), NCall(NVar("sum"), <<K>>), NArray(<<ID>>), NObject(<< Pair(NStr(ka), ID) >>), NVar(""), T}
 GroupProgs == {NGroup(NVar(""), << Pair(k, v) >>) : k \in KeyExprs, v \in ValExprs}
-              \cup {NGroup(NVar(""), << Pair(S, ID), Pair(T, K) >>), NGroup(NVar(""), << Pair(S, ID), Pair(NStr(kx), K) >>),
+              \cup {NGroup(NVar(""), << Pair(S, ID), Pair(T, K) >>), NGroup(NVar(""), << Pair(S, ID), Pair(NStr(kx), K) >>), NGroup(NVar(""), << Pair(NStr(kx), K), Pair(S, ID) >>),
+                    NGroup(NVar(""), << Pair(NStr(<<121>>), K), Pair(T, ID), Pair(S, K) >>),
                     NGroup(NVar(""), << Pair(NStr(ka), ID), Pair(NStr(kb), NCall(NVar("count"), <<NVar("")>>)) >>),
                     NGroup(NVar(""), << Pair(NStr(ka), ID), Pair(NStr(ka), K) >>),
                     NGroup(PA(<<NVar(""), NName(kk)>>), << Pair(NCall(NVar("string"), <<NVar("")>>), NVar("")) >>),
